@@ -40,7 +40,7 @@ func zzBurst(h server.RouteHandler, addr string, max int, runs *int) int {
 // most N x (1 + T/window) requests. The adversary asks greedily at t=0 and at
 // t=T for T in {0, window/2, window, 2*window}.
 func zzDeclaredLimit(maxN int) {
-	n := zzverif.IntRange("N", 1, maxN)
+	n := 1 + zzverif.Choice("N", maxN)
 	w := zzWindows[zzverif.Choice("window", len(zzWindows))]
 	runs := 0
 	h := zzChain(&ast.Route{Path: "/p", Method: ast.Get, RateLimit: &ast.RateLimit{Requests: uint32(n), Window: w.spelling}},
@@ -61,6 +61,40 @@ func zzDeclaredLimit(maxN int) {
 		zzverif.Assert(a1 >= n, "budget-not-refilled-after-a-window window="+w.spelling)
 	}
 	zzverif.Reach("declared-limit")
+}
+
+// Idle time must not pile up as credit: after one request and an idle gap (the
+// bucket is full again) a burst at one instant is still admitted at most N
+// times, and again at most N times a moment later.
+func VerifC11_IdleCredit() {
+	n := 1 + zzverif.Choice("N", 3)
+	w := zzWindows[zzverif.Choice("window", 4)] // min, sec, hour, day
+	runs := 0
+	h := zzChain(&ast.Route{Path: "/p", Method: ast.Get, RateLimit: &ast.RateLimit{Requests: uint32(n), Window: w.spelling}},
+		func(ctx *server.Context) error { runs++; return nil })
+	zzverif.AdvanceClock(0)
+	first := zzverif.Choice("first", 3) // nothing, one request, a full burst
+	a0 := 0
+	switch first {
+	case 1:
+		a0 = zzBurst(h, "10.0.0.1:1", 1, &runs)
+	case 2:
+		a0 = zzBurst(h, "10.0.0.1:1", 70*3, &runs)
+	}
+	gap := []int{1, 2, 4, 8}[zzverif.Choice("gap", 4)] // in half windows
+	zzverif.AdvanceClock(time.Duration(gap) * w.d / 2)
+	a1 := zzBurst(h, "10.0.0.1:2", 70*3, &runs)
+	if w.spelling == "min" {
+		zzverif.Assert(a1 <= n, "burst-after-idle-time-exceeds-declared-N")
+		zzverif.Assert(2*(a0+a1) <= n*(2+gap), "admitted-exceeds-N(1+T/window) after idle time")
+	}
+	// a moment later nothing more is admitted than the elapsed time has earned
+	zzverif.AdvanceClock(time.Millisecond)
+	a2 := zzBurst(h, "10.0.0.1:3", 70*3, &runs)
+	if w.spelling == "min" {
+		zzverif.Assert(a2 <= 1, "credit-left-over-after-a-full-burst")
+	}
+	zzverif.Reach("idle")
 }
 
 func VerifC11_DeclaredLimit() { zzDeclaredLimit(2) }
